@@ -124,6 +124,9 @@ type HdrCase struct {
 	Labels     []string `json:"labels,omitempty"`
 }
 
+// hdrDepth is the edit-distance / length bound of the header probe space (1 quick, 2 thorough).
+var hdrDepth = 1
+
 // c09Cases enumerates the header-gate cases of one RPC, in a fixed order.
 func c09Cases(u *JobUnit, js *JobService, m *JobMethod, yield func(*HdrCase) error) error {
 	var req []JobHeader
@@ -156,7 +159,7 @@ func c09Cases(u *JobUnit, js *JobService, m *JobMethod, yield func(*HdrCase) err
 	}
 	// (1) all required headers valid, one header at a time through every must-accept exemplar
 	for _, h := range req {
-		for _, val := range model.MustAccept(h.Type, h.Format) {
+		for _, val := range model.MustAccept(h.Type, h.Format, hdrDepth) {
 			val := val
 			hv := cloneHV(good)
 			hv[h.Name] = &val
@@ -178,11 +181,25 @@ func c09Cases(u *JobUnit, js *JobService, m *JobMethod, yield func(*HdrCase) err
 	ways := func(h JobHeader) []badWay {
 		empty := ""
 		out := []badWay{{"absent", nil}, {"empty", &empty}}
-		for _, v := range model.MustReject(h.Type, h.Format) {
+		for _, v := range model.MustReject(h.Type, h.Format, hdrDepth) {
 			v := v
 			out = append(out, badWay{"malformed:" + v, &v})
 		}
 		return out
+	}
+	// (1b) spellings the reference does not judge (lenient forms): whatever the verdict, it must be a clean one
+	for _, h := range req {
+		_, _, un := model.HeaderProbes(h.Type, h.Format, hdrDepth)
+		for _, val := range un {
+			val := val
+			hv := cloneHV(good)
+			hv[h.Name] = &val
+			hc := mk("unjudged", fmt.Sprintf("%s,hdr=%s,type=%s,format=%s#unjudged", cellBase, h.Name, orNone(h.Type), orNone(h.Format)), hv, body, "valid")
+			hc.Hdr, hc.Val, hc.Type, hc.Format = h.Name, val, h.Type, h.Format
+			if err := yield(hc); err != nil {
+				return err
+			}
+		}
 	}
 	nr := len(req)
 	if nr > 4 {
@@ -215,8 +232,11 @@ func c09Cases(u *JobUnit, js *JobService, m *JobMethod, yield func(*HdrCase) err
 				combos = append(combos, c)
 			}
 		}
-		for _, combo := range combos {
+		for ci, combo := range combos {
 			for _, bodyKind := range []string{"valid", "malformed"} {
+				if bodyKind == "malformed" && len(subset) == 1 && ci > 2 {
+					continue // the probe space of malformed values is run with a valid body; the first three ways with both
+				}
 				hv := cloneHV(good)
 				var want, labels, emptyPlain []string
 				for i, h := range subset {
@@ -269,6 +289,9 @@ func c09TSCases(j *Job, u *JobUnit) error {
 }
 
 func c09Unit(j *Job, u *JobUnit) error {
+	if j.Thorough {
+		hdrDepth = 2
+	}
 	if j.Params["stage"] == "tscases" {
 		return c09TSCases(j, u)
 	}
@@ -318,6 +341,17 @@ func c09Unit(j *Job, u *JobUnit) error {
 						t.hit(cellBase, "valid_request_not_dispatched", true)
 					default:
 						t.hit(cellBase, "accepted", true)
+					}
+				case "unjudged":
+					switch {
+					case ex.Panic != "":
+						t.viol(cell, "panic", clipS(ex.Panic), []string{hc.Val})
+					case ex.Status >= 500:
+						t.viol(cell, "not_400", fmt.Sprintf("%s: %q -> %d %s", hc.Hdr, hc.Val, ex.Status, clip(ex.RespBody)), []string{hc.Val})
+					case len(f.calls) == 1:
+						t.hit(cellBase, "lenient_spelling_accepted", true)
+					default:
+						t.hit(cellBase, "lenient_spelling_rejected", true)
 					}
 				case "noheaders":
 					if len(f.calls) != 1 {
